@@ -1606,14 +1606,29 @@ def run_battery(prop, tier):
     binp, err = build_replay()
     if binp is None:
         return {"ran": False, "note": "replay tool does not build against the current /repo (battery skipped): " + err[-300:], "witnesses": len(ws), "failing": []}
-    try:
-        p = subprocess.run([binp, "--stdin"], input=json.dumps(ws), capture_output=True, text=True, timeout=900)
-    except subprocess.TimeoutExpired:
-        return {"ran": False, "note": "battery timed out", "witnesses": len(ws), "failing": []}
-    lines = [l for l in p.stdout.split("\n") if l.strip()]
-    if len(lines) != len(ws):
+    # the replay tool catches panics; an ABORT of the process (allocation failure, stack overflow, a signal) kills it in
+    # the middle of the list. That input is then itself a failing witness (the real code brought the process down); the
+    # run continues after it (at most 5 such restarts).
+    failing, lines, start, restarts = [], [], 0, 0
+    while start < len(ws):
+        try:
+            p = subprocess.run([binp, "--stdin"], input=json.dumps(ws[start:]), capture_output=True, text=True, timeout=900)
+        except subprocess.TimeoutExpired:
+            return {"ran": False, "note": "battery timed out", "witnesses": len(ws), "failing": []}
+        got = [l for l in p.stdout.split("\n") if l.strip()]
+        lines += got
+        if len(got) == len(ws) - start:
+            break
+        if p.returncode < 0 or p.returncode in (134, 139) or p.returncode > 128:
+            culprit = ws[start + len(got)]
+            tail = [l for l in p.stderr.split("\n") if l.strip() and "stack backtrace" not in l]
+            lines.append(json.dumps({"holds": False, "observed": f"the process was KILLED (status {p.returncode}) while running this input: " + " | ".join(tail[:2])[:300]}))
+            start = len(lines)
+            restarts += 1
+            if restarts > 5:
+                break          # enough: six inputs brought the process down; the rest of the list is not run
+            continue
         return {"ran": False, "note": f"replay produced {len(lines)} results for {len(ws)} witnesses (crash?) {p.stderr[-200:]}", "witnesses": len(ws), "failing": []}
-    failing = []
     for w, l in zip(ws, lines):
         r = json.loads(l)
         if not r["holds"]:
